@@ -630,6 +630,13 @@ theorem setInt_valid (k : IntKind) (v : Int) (n : Nat) (cur : Option Nat) (hn : 
   obtain ⟨m, rfl⟩ : ∃ m, n = m + 1 := ⟨n - 1, by omega⟩
   simp only
   have h2 := int2bitstore_valid k v (m + 1) hr
+  have h8 : ¬ (k.wholeByte = true ∧ (m + 1) % 8 ≠ 0) := by
+    rintro ⟨hw, h8⟩
+    have : 8 ∣ m + 1 := by
+      apply step8_dvd
+      cases k <;> simp [IntKind.wholeByte] at hw <;> simpa [IntKind.kind, Kind.allowed] using hc
+    omega
+  rw [if_neg h8]
   unfold intle2bitstore
   rw [h2]
   cases k <;> simp [IntKind.little, IntKind.signed, encode]
@@ -970,6 +977,8 @@ theorem setInt_length (k : IntKind) (v : Int) (m : Nat) (cur : Option Nat) (b : 
   | zero => cases h
   | succ m =>
     simp only at h
+    split at h
+    · cases h
     by_cases hl : k.little = true
     · rw [if_pos hl] at h
       unfold intle2bitstore at h
